@@ -493,7 +493,8 @@ def scales(spec):
     big = max(float(np.max(lo)), float(np.max(hi)))
     fscale = np.maximum(np.maximum(lo, hi), 0.2 * big)
     tf = spec.get("tscale_factor", 1.0)
-    return float(tscale * tf), fscale
+    ff = spec.get("fscale_factor", 1.0)
+    return float(tscale * tf), fscale * ff
 
 
 def phase_info(spec, guess_jitter=0.0):
@@ -505,6 +506,14 @@ def phase_info(spec, guess_jitter=0.0):
     Tn = nucleation_temperature(spec)
     hi = cf.phase("high", Tn) * (1 + guess_jitter)
     lo = cf.phase("low", Tn) * (1 - guess_jitter)
+    # rough user guesses (dimensionless, so unit covariant): spec["guess"] = {"high": m, "low": m,
+    # "zero": z}: non-zero components multiplied by m, components that vanish in the phase set to
+    # z * (largest vev), like a user typing (0, 200) for a phase at (0, 94)
+    gs = spec.get("guess")
+    if gs:
+        big = max(float(np.max(np.abs(hi))), float(np.max(np.abs(lo))))
+        hi = np.where(hi != 0, hi * float(gs.get("high", 1.0)), float(gs.get("zero", 0.0)) * big)
+        lo = np.where(lo != 0, lo * float(gs.get("low", 1.0)), float(gs.get("zero", 0.0)) * big)
     tscale, fscale = scales(spec)
     info = WallGo.PhaseInfo(
         temperature=float(Tn),
@@ -701,6 +710,27 @@ def st_bag(draw, nf=1):
         p["lhs"] = round(draw(st.floats(-0.3, 0.3)) * math.sqrt(lam[0] * lam[1]), 4)
     Tn = round(draw(st.floats(0.3, 1.2)) * max(v), 2)
     return {"family": f"Bag{nf}", "p": p, "Tn": Tn}
+
+
+@st.composite
+def st_guess(draw):
+    """Rough phase guesses and coarse variation scales as a user would supply them."""
+    if draw(st.sampled_from([True, True, False])):
+        g = {"high": round(draw(st.floats(0.75, 2.2)), 3), "low": round(draw(st.floats(0.75, 1.6)), 3),
+             "zero": draw(st.sampled_from([0.0, 0.0, 0.01, -0.02]))}
+    else:
+        g = None
+    tf = draw(st.sampled_from([1.0, 1.0, 0.5, 2.0]))
+    ff = draw(st.sampled_from([1.0, 1.0, 0.3, 0.1]))
+    return g, tf, ff
+
+
+def with_guess(spec, gtf):
+    g, tf, ff = gtf
+    out = dict(spec, tscale_factor=tf, fscale_factor=ff)
+    if g:
+        out["guess"] = g
+    return out
 
 
 def st_relabel(nf):
